@@ -79,7 +79,7 @@ def sameValueZeroPrim : JsVal → JsVal → Bool
 /-- canonical array index: "0", "1", … without leading zeros, below 2^32-1 -/
 def arrayIndex? (s : String) : Option Nat :=
   if s.isEmpty then none
-  else if s.toList.all Char.isDigit && (s == "0" || s.front != '0') then
+  else if s.toList.all Char.isDigit && (s == "0" || s.toList.head? != some '0') then
     let n := s.toList.foldl (fun acc c => 10 * acc + (c.toNat - 48)) 0
     if n < 4294967295 then some n else none
   else none
